@@ -39,7 +39,8 @@ def _scripted(args, env, seed):
 
 def prover_witness_runs(run):
     from checks.c01 import degree_bound
-    for scenario, what in ((0, "satisfying family"), (1, "one row violated"), (2, "one copy constraint broken")):
+    for scenario, what in ((0, "satisfying family"), (1, "one row violated"), (2, "one copy constraint broken"),
+                           (3, "public input on a row without arithmetic selector")):
         args = ["prove_w", str(scenario)]
         sb = fw.run_driver(fw.SYM_BIN, args, run.seed, extra_env={"VERIF_FLIP_DEPTH": "0" if scenario == 0 else "14",
                                                                     "VERIF_MAX_PATHS": "300"})
@@ -104,8 +105,18 @@ def prover_witness_runs(run):
                 run.extra["satisfying_family_symbolic_proof_accepted"] = True
             else:
                 if generic and (res["proved"] or "CircuitUnsatisfied" not in str(res.get("error"))):
-                    run.violations.append((f"{tag}/p{k}/generic-outcome",
-                                           _wv(run, tag, f"violating instance, generic values: {res}")))
+                    # replay at pseudo-random witness values on the concrete build of the same code
+                    rnd = random.Random(run.seed + 99 + k)
+                    env = {n: "%064x" % rnd.randrange(2, R) for n in names}
+                    rb = _scripted(args, env, run.seed)
+                    out = rb["outputs"]["prove"]["paths"][0]
+                    rr = out.get("result") or {}
+                    bad = out.get("panic") is not None or rr.get("proved") or "CircuitUnsatisfied" not in str(rr.get("error"))
+                    path = _wv(run, tag, {"symbolic": res, "replay_env": env, "real": out, "replayed": bool(bad)})
+                    if bad:
+                        run.violations.append((f"{tag}/p{k}/generic-outcome", path))
+                    else:
+                        run.inconclusive.append(f"{tag}/p{k}: symbolic run says {res}, concrete run refuses as it should")
         run.extra[f"{tag}/paths"] = len(P["paths"])
     # satisfied concrete circuits of both minimal sizes (n = 4: no user gate; n = 8) with symbolic
     # blinders: the prover must return a proof that the verifier accepts (outcome of the symbolic run)
